@@ -106,4 +106,4 @@ def sweep(ctx, pid, n, kgroups):
 
 
 def run(ctx):
-    sweep(ctx, "C08", 100 if ctx.quick else 1800, None)
+    sweep(ctx, "C08", 80 if ctx.quick else 1800, None)
